@@ -10,19 +10,48 @@ ASSUMPTIONS = ['readlink obeys its man page contract and nothing more (stub in t
 INERT = []
 
 
+LONG = {'quick': [255, 256, 257], 'thorough': [255, 256, 257, 300, 511, 512, 1022, 1023]}
+SCALED_N = 16      # -DXTL_VERIF -DXTL_VERIF_PATH_BUFFER=16: the internal buffer of executable_path scaled down (hook in /repo), every byte of the path symbolic
+
+
 def lens(tier):
     return (list(range(0, 13)) + [16, 17, 24, 31] + ([13, 14, 15, 20, 40, 48] if tier == 'thorough' else []))
 
 
+def hooked(n, tvlen):
+    return Unit('sysN%d' % n, 'wrappers.cpp', ['harness.c'], cxxflags=['-DXTL_VERIF', '-DXTL_VERIF_PATH_BUFFER=%d' % n], rt=('verif_rt.c', 'libstdcxx_models.c'),
+                tv=[('h_exe', ['PLEN=%d' % tvlen, 'SYMBOLIC_CONTENT']), ('h_prefix', ['PLEN=%d' % (tvlen + 1), 'SYMBOLIC_CONTENT'])], tv_iters=2000)
+
+
 def units(tier):
-    return [Unit('sys', 'wrappers.cpp', ['harness.c'], rt=('verif_rt.c', 'libstdcxx_models.c'), tv=[('h_exe', ['PLEN=9', 'SYMBOLIC_CONTENT']), ('h_prefix', ['PLEN=11', 'SYMBOLIC_CONTENT']), ('h_prefix', ['PLEN=24', 'SYMBOLIC_CONTENT'])], tv_iters=3000)]
+    # 'sys' is the code as shipped (PATH_MAX + 1 = 4097-byte buffer: ~3 min per obligation, so only two path lengths and endianness are decided on it); the other units scale the
+    # internal buffer through the XTL_VERIF_PATH_BUFFER hook of /repo (the code is otherwise identical): 64 bytes for paths up to 48, 320 for paths around 256, 16 for the buffer boundary
+    us = [Unit('sys', 'wrappers.cpp', ['harness.c'], rt=('verif_rt.c', 'libstdcxx_models.c'), tv=[('h_exe', ['PLEN=9', 'SYMBOLIC_CONTENT']), ('h_prefix', ['PLEN=11', 'SYMBOLIC_CONTENT'])], tv_iters=2000),
+          hooked(SCALED_N, 14), hooked(64, 24), hooked(320, 40)]
+    if tier == 'thorough': us.append(hooked(1100, 30))
+    return us
 
 
 def obligations(tier):
     obs = []
+    def add(name, unit, h, L, extra, bound, backend='minisat', memset=None):
+        ob = Ob(name, unit, h, defines=['PLEN=%d' % L, 'RT_STR_BLOCK=%d' % (2 * L + 40), 'RT_STR_BLOCK_ONLY'] + extra, unwind=L + 6, mem_unwind=L + 8,
+                unwindset=['__verif_memset.0:%d' % memset] if memset else [], bound=bound, timeout=900, backend=backend); ob.harness_unwind = L + 4; obs.append(ob)
     for L in lens(tier):
         for h in ('h_exe', 'h_prefix'):
-            ob = Ob('%s/len%02d' % (h[2:], L), 'sys', h, defines=['PLEN=%d' % L, 'SYMBOLIC_CONTENT', 'RT_STR_BLOCK=%d' % (2 * L + 40), 'RT_STR_BLOCK_ONLY'], unwind=L + 6, mem_unwind=L + 4,
-                    unwindset=['__verif_memset.0:1030'], bound='|P|=%d, all bytes symbolic' % L, timeout=900, backend='cadical' if L > 12 else 'minisat'); ob.harness_unwind = L + 4; obs.append(ob)
+            add('%s/len%02d' % (h[2:], L), 'sysN64', h, L, ['SYMBOLIC_CONTENT'], '|P|=%d, all bytes symbolic; internal buffer scaled to 64 bytes' % L, 'cadical' if L > 12 else 'minisat', memset=70)
+    for (h, L) in (('h_exe', 9), ('h_prefix', 11)):
+        add('%s/unscaled_len%02d' % (h[2:], L), 'sys', h, L, ['SYMBOLIC_CONTENT'], '|P|=%d, all bytes symbolic; code as shipped (4097-byte buffer)' % L, memset=4100)
+    # long paths: the content is a fixed pattern (separators, spaces, non-ASCII bytes) except the last TAILSYM bytes, which are symbolic; lengths around the 256-byte mark (quick) and
+    # around 512 / 1023 (thorough)
+    for L in LONG.get(tier, LONG['quick']):
+        for h in ('h_exe', 'h_prefix'):
+            big = L > 300
+            add('%s/long%04d' % (h[2:], L), 'sysN1100' if big else 'sysN320', h, L, ['TAILSYM=6'], '|P|=%d, fixed pattern with the last 6 bytes symbolic; internal buffer scaled to %d bytes' % (L, 1100 if big else 320), 'cadical', memset=1110 if big else 330)
+    # the boundary of the internal buffer, decided on the scaled configuration (buffer of SCALED_N bytes, i.e. PATH_MAX scaled to SCALED_N - 1): lengths below, at and above it; beyond
+    # PATH_MAX the property says nothing and only memory safety is decided
+    for L in (SCALED_N - 3, SCALED_N - 2, SCALED_N - 1, SCALED_N, SCALED_N + 1, SCALED_N + 4):
+        for h in ('h_exe', 'h_prefix'):
+            add('%s/scaled%d_len%02d' % (h[2:], SCALED_N, L), 'sysN%d' % SCALED_N, h, L, ['SYMBOLIC_CONTENT', 'BUFN=%d' % SCALED_N, 'PMAX=%d' % (SCALED_N - 1)], 'internal buffer scaled to %d bytes, |P|=%d, all bytes symbolic' % (SCALED_N, L), memset=40)
     ob = Ob('endianness', 'sys', 'h_endian', defines=['PLEN=1'], unwind=6, bound='-'); obs.append(ob)
     return obs
